@@ -22,6 +22,8 @@ func main() {
 }
 
 var corpus = []string{
+	`local last = {}; local mid = setmetatable({held = 1}, {__newindex = function(t, k, v) emit("mid handler", k, v) end}); local o = setmetatable({}, {__newindex = mid}); o.held = 2; o.fresh = 3; emit(rawget(o, "held"), rawget(mid, "held"), rawget(mid, "fresh"))`,
+	`local o = setmetatable({}, {__lt = function() emit("lt") return false end}); emit(o <= o, o >= o, o < o); emit(pcall(function() local p = {} return p <= p end))`,
 	`local log = function(...) emit(...) end; local mt = {}; mt.__add = function(a, b) log("add", type(a), type(b)) return 1 end; local o = setmetatable({}, mt); emit(o + 1, 1 + o, o + o, o + "x")`,
 	`local base = {inherited = 1}; local mid = setmetatable({midv = 2}, {__index = base}); local o = setmetatable({}, {__index = mid}); emit(o.inherited, o.midv, o.none, rawget(o, "midv"))`,
 	`local store = {}; local o = setmetatable({present = 1}, {__newindex = function(t, k, v) emit("ni", k, v); rawset(store, k, v) end}); o.present = 2; o.absent = 3; emit(o.present, rawget(o, "absent"), store.absent)`,
